@@ -178,7 +178,18 @@ struct Driver {
         m.discovery_hints.clear(); m.fallback_hints.clear();
         return m;
     }
-    std::string manifest_uri(long c, const std::string& cls, std::vector<std::uint8_t>* cipher = nullptr) {
+    // discovery hints a remote manifest can carry (attacker-chosen texts): walked when the direct attempt at the announcer fails
+    static void add_hints(protocol::Manifest& m, const std::string& kind, const PeerId& announcer) {
+        auto hint = [&](const std::string& scheme, const std::string& transport, const std::string& ep, int prio) {
+            protocol::DiscoveryHint h{}; h.scheme = scheme; h.transport = transport; h.endpoint = ep; h.priority = static_cast<std::uint8_t>(prio); m.discovery_hints.push_back(h); };
+        const std::string peer = peer_id_to_string(announcer);
+        if (kind == "relay" || kind == "mixed") hint("relay", "relay", "127.0.0.1:9?peer=" + peer, 1);
+        if (kind == "relaybad" || kind == "mixed") { hint("relay", "relay", "", 2); hint("relay", "tcp", "127.0.0.1:99999999999999999999?peer=zz", 3); hint("x", "relay", ":::?peer=", 4);
+                                                     hint("relay", "relay", "127.0.0.1:9?peer=" + std::string(200, 'f'), 5); }
+        if (kind == "control" || kind == "mixed") hint("control", "control", "127.0.0.1:1", 6);
+        if (kind == "mixed") { hint("transport", "tcp", "127.0.0.1:0", 7); hint("", "", "", 8); protocol::FallbackHint f{}; f.uri = "control://127.0.0.1:1"; f.priority = 1; m.fallback_hints.push_back(f); }
+    }
+    std::string manifest_uri(long c, const std::string& cls, std::vector<std::uint8_t>* cipher = nullptr, const std::string& hints = "none", const PeerId& announcer = PeerId{}) {
         if (cls == "garbage") return "eph://!!!not-base64!!!";
         if (cls == "empty") return "";
         std::vector<std::uint8_t> ct;
@@ -190,6 +201,7 @@ struct Driver {
         if (cls == "thr0") m.threshold = 0;
         if (cls == "thrbig") m.threshold = static_cast<std::uint8_t>(m.shards.size() + 1);
         if (cls == "expired") m.expires_at = std::chrono::system_clock::now() - std::chrono::seconds(10);
+        if (hints != "none") add_hints(m, hints, announcer);
         if (cls == "s255") { while (m.shards.size() < 255) { auto s = m.shards.back(); s.index = static_cast<std::uint8_t>(m.shards.size() + 1); m.shards.push_back(s); } m.total_shares = 255; }
         return protocol::encode_manifest(m);
     }
@@ -214,7 +226,9 @@ struct Driver {
             a.reset(); b.reset();
             vclock::set_ns(0);
             Config cfg{}; cfg.identity_seed = 0x1234u; cfg.announce_pow_difficulty = 0; cfg.handshake_pow_difficulty = 0; cfg.store_pow_difficulty = 0;
-            cfg.relay_enabled = false; cfg.nat_stun_enabled = false; cfg.min_manifest_ttl = std::chrono::seconds(2);
+            // relaying is left as the shipped default (enabled, no relay endpoint listed: the node has no relay client) unless relay=off
+            if (c.s("relay", "default") == "off") cfg.relay_enabled = false;
+            cfg.nat_stun_enabled = false; cfg.min_manifest_ttl = std::chrono::seconds(2);
             cfg.announce_min_interval = std::chrono::seconds(1); cfg.announce_burst_limit = 1000000; cfg.announce_burst_window = std::chrono::seconds(1);
             cfg.upload_max_parallel_transfers = 0; cfg.upload_max_transfers_per_peer = 0;
             cfg.shard_threshold = 2; cfg.shard_total = 3;
@@ -236,7 +250,7 @@ struct Driver {
         if (c.op == "announce") {
             std::string cls = c.s("m", "ok");
             protocol::AnnouncePayload ap{}; ap.chunk_id = cid(cls == "idmismatch" ? ch + 20 : ch); ap.peer_id = pid(p); ap.endpoint = "127.0.0.1:2001";
-            ap.ttl = std::chrono::seconds(60); ap.manifest_uri = manifest_uri(ch, cls == "idmismatch" || cls == "assignabsent" ? "ok" : cls);
+            ap.ttl = std::chrono::seconds(60); ap.manifest_uri = manifest_uri(ch, cls == "idmismatch" || cls == "assignabsent" ? "ok" : cls, nullptr, c.s("hints", "none"), pid(p));
             if (cls == "assignabsent") ap.assigned_shards = {200};
             if (c.i("assign", 0)) ap.assigned_shards = {1};
             // the endpoint text a peer advertises is attacker-chosen; the node parses it much later (fetch retries once the session is gone)
@@ -255,7 +269,7 @@ struct Driver {
             else if (ep == "space") ap.endpoint = " 127.0.0.1 : 80 ";
             protocol::Message m{}; m.type = protocol::MessageType::Announce; m.payload = ap;
             ensure_stub(p); out = deliver(p, sign(p, m), sock, exc);
-            e.i("c", ch).s("m", cls).s("ep", ep);
+            e.i("c", ch).s("m", cls).s("ep", ep).s("hints", c.s("hints", "none"));
         } else if (c.op == "peerdrop") {
             // the peer's session ends (its stub closes); what the node learnt from it stays
             if (stub.count(p)) { ::close(stub[p]); stub.erase(p); }
